@@ -2,15 +2,25 @@ import PolyVerif.Model.Seqhash
 namespace PolyVerif.Driver.C12
 open PolyVerif PolyVerif.Seqhash
 
-/-- cases: `rotate s` -/
+def hexVal (c : Char) : Nat :=
+  if c.isDigit then c.toNat - 48 else if 'a' ≤ c && c ≤ 'f' then c.toNat - 87 else if 'A' ≤ c && c ≤ 'F' then c.toNat - 55 else 0
+
+/-- decode a hex string into bytes, each byte represented as the code point of the same value
+(the model compares code points, Go compares bytes: the same order) -/
+def unhex : List Char → List Char
+  | a :: b :: rest => Char.ofNat (16 * hexVal a + hexVal b) :: unhex rest
+  | _ => []
+
+def hexOf (s : Str) : String :=
+  String.ofList (s.flatMap fun c => [Seqhash.hexDigit (c.toNat / 16), Seqhash.hexDigit (c.toNat % 16)])
+
+/-- cases: `rotate s` (text) | `rotatehex h` (arbitrary bytes, hex encoded; the harness op `rotatehex`
+decodes, calls RotateSequence on the raw bytes and replies in hex) -/
 def render (f : List String) : List String := f
 
-def judge (f out : List String) : Verdict :=
-  match f with
-  | ["rotate", s] =>
-    let cs := s.toList
+def judgeBytes (cs : Str) (out : List String) (dec : String → Str) (enc : Str → String) : Verdict :=
     let m := match rotateSequence cs with
-      | some r => ["ok", String.ofList r]
+      | some r => ["ok", enc r]
       | none => ["panic"]
     let outN := match out with | "panic" :: _ => ["panic"] | o => o
     let short := cs.length ≤ 1500
@@ -18,13 +28,20 @@ def judge (f out : List String) : Verdict :=
     let expect := if short then Spec.leastRotation cs else Spec.leastRotationFast cs
     let fastOk := !short || Spec.leastRotationFast cs == expect
     let j := match out with
-      | ["ok", r] => r.toList == expect && fastOk
+      | ["ok", r] => dec r == expect && fastOk
       | _ => false
     let allSame := match cs with | [] => true | c :: rest => rest.all (· == c)
     { corr := outN == m, judge := some j,
       cls := (if cs.length < 2 || allSame then "triv:" else "") ++ (if short then "argmin" else "twoptr") ++
              (if expect == cs then "/already-least" else "/moved"),
-      detail := if outN == m && j then "" else lineOf (m ++ ["spec", String.ofList expect]) }
+      detail := if outN == m && j then "" else lineOf (m ++ ["spec", enc expect]) }
+
+def judge (f out : List String) : Verdict :=
+  match f with
+  | ["rotate", s] => judgeBytes s.toList out String.toList String.ofList
+  | ["rotatehex", h] =>
+    let v := judgeBytes (unhex h.toList) out (fun r => unhex r.toList) hexOf
+    { v with cls := v.cls ++ "/bytes" }
   | _ => { corr := false, judge := none, cls := "bad-case", detail := "bad case" }
 
 def driver : PropDriver := { render, judge }
